@@ -37,7 +37,7 @@ def run_demo(seed, tree, tag):
 
 def main():
     prop, wt, seed = sys.argv[1], sys.argv[2], sys.argv[3].rstrip("/")
-    suite = "--no-suite" not in sys.argv and "--suite-from-seeder" not in sys.argv
+    suite = "--no-suite" not in sys.argv and "--suite-from-seeder" not in sys.argv and "--retest" not in sys.argv
     slug = os.path.basename(seed)
     res = {"confirmed_at": time.strftime("%Y-%m-%d %H:%M:%S"), "steps": []}
     sh("git reset -q --hard && git clean -fdq include", cwd=wt)
@@ -60,6 +60,13 @@ def main():
             rct, ot = sh("ctest --test-dir %s/_build -j12 --timeout 900 2>&1 | tail -4" % wt, timeout=7200)
             m = re.search(r"(\d+)% tests passed, (\d+) tests failed out of (\d+)", ot)
             res["existing_suite_with_change"] = {"build_tail": ob[-300:], "ctest": m.group(0) if m else ot[-300:]}
+        if "--retest" in sys.argv:
+            # re-run of the check after it was strengthened: keep the suite confirmation of the first run
+            try:
+                old = json.load(open(os.path.join(VERIF, "seeded", "%s-%s" % (prop, slug), "meta.json")))["confirmation_by_lead"]
+                res["existing_suite_with_change"] = old.get("existing_suite_with_change")
+                res["first_run"] = {"confirmed_at": old.get("confirmed_at"), "our_check": {k: old.get("our_check", {}).get(k) for k in ("exit", "lines", "caught", "concrete_input")}}
+            except Exception: pass
         if "--suite-from-seeder" in sys.argv:
             # time pressure: the 132-test suite with the change was built and run by the seeding agent (its logs are
             # in the seed directory and its verdict in meta.json "ran"); the lead re-ran only the demonstration and the check
@@ -86,7 +93,7 @@ def main():
     sh("git checkout -- evidence/%s.json" % prop, cwd=VERIF)
     ok = rc0 == 0 and rc1 not in (0, None, 99)
     res["kept"] = ok and (not suite or "100% tests passed" in json.dumps(res.get("existing_suite_with_change", "")))
-    if "--suite-from-seeder" in sys.argv: res["kept"] = ok
+    if "--suite-from-seeder" in sys.argv or "--retest" in sys.argv: res["kept"] = ok
     dst = os.path.join(VERIF, "seeded", "%s-%s" % (prop, slug))
     os.makedirs(dst, exist_ok=True)
     for f in os.listdir(seed):
